@@ -991,7 +991,7 @@ def solve_unit_int(unit, workdir, core, seed=0):
         'src': ex.fn_src.get(cn), 'functions': {c: ex.fn_src.get(c) for c in ex.funcs},
         'loops': ex.loops.get(cn, 0), 'dropped': dict(ex.dropped), 'externals': sorted(ex.externals),
         'sideeffect_args': [], 'replaced': [X.cname_of(g) for g, _, _ in unit.replace],
-        'qualname': f['qual'] + '::' + (f['name'] or ''), 'type': f['type'],
+        'qualname': f['qual'] + '::' + (f['name'] or ''), 'type': f['type'], 'uf_abstracted': [],
     }
     res['meta'] = meta
     base = PRELUDE + '\n'.join(wp.decls) + '\n' + '\n'.join('(assert %s)' % a for a in wp.asserts) + '\n' + \
